@@ -241,11 +241,15 @@ def run(prog: Program, ctx: Ctx) -> None:  # noqa: PLR0912,PLR0915
         for a in assigns:
             sup = False
             for anc in ancestors(a):
+                if anc is loop_node.stmt:
+                    break  # the handler must sit inside the loop body: one rejected alias must not end the loop
                 if isinstance(anc, ast.With) and any("CyclicAliasError" in unparse(i.context_expr) and "suppress" in unparse(i.context_expr) for i in anc.items):
                     sup = True
                 if isinstance(anc, ast.Try) and any("CyclicAliasError" in unparse(h.type) for h in anc.handlers if h.type is not None):
                     sup = True
-            ctx.ob("R5", key(fn, "cyclic-suppressed"), sup, "a retarget that would create a cycle is skipped, not raised", where(fn, a))
+            ctx.ob("R5", key(fn, "cyclic-suppressed-per-alias"), sup,
+                   "a retarget that would create a cycle is skipped per alias (handler inside the loop), so the remaining aliases still follow the replacement",
+                   where(fn, a))
     # stub-merge guard
     merges = [c for c in calls_in(fn.node) if (dotted(c.func) or "").endswith("merge_stubs")]
     for c in merges:
